@@ -387,6 +387,20 @@ class Party(sut.BaseAlgorithm):
             rec["malformed"] = how
             rec["digest_before"] = ctx.state_digest()
             ctx.fired("malformed:" + how)
+        elif fk == "future_invalid":
+            # a plan of several periods whose LATER columns hold a pilot the EVSE would refuse; the plan is replaced at the next
+            # period (this party is asked every period and then names every station), so that pilot never comes into force
+            P_ = self.sc["party"]
+            if P_.get("max_recompute") == 1 and P_.get("subset_mode", "all") == "all" and not P_.get("empty_prob"):
+                r = sub(self.sc["seed"], "future_invalid", fault["pick"])
+                L_ = r.randint(2, 4)
+                sched = dict(self.script(t, force_len=L_, nonempty=True))
+                sid = r.choice(sorted(sched.keys()))
+                row_ = [float(x) for x in sched[sid]]
+                row_[r.randint(1, L_ - 1)] = invalid_value(r, self.st[sid]["evse"])
+                sched[sid] = row_
+                rec["future_invalid"] = sid
+                ctx.fired("future_invalid")
         elif fk == "invalid_pilot":
             r = sub(self.sc["seed"], "invalid", fault["pick"])
             sid = r.choice(self.order)
@@ -404,6 +418,13 @@ class Party(sut.BaseAlgorithm):
             sched = dict(reversed(list(sched.items())))
         rec["schedule"] = {k: [float(x) for x in v] for k, v in sched.items()}
         rec["key_order"] = list(sched.keys())
+        if self.sc["party"].get("reuse_mapping") and self.inner is None and fk != "malformed" and type(sched) is dict:
+            # the scheduler keeps ONE mapping object and refills it in place at every call
+            if not hasattr(self, "_one_mapping"):
+                self._one_mapping = {}
+            self._one_mapping.clear()
+            self._one_mapping.update(sched)
+            sched = self._one_mapping
         mt = self.sc["party"].get("mapping_type", "dict")
         if mt != "dict" and self.inner is None and fk != "malformed" and type(sched) is dict:
             # the mapping handed to the simulator is a dict subclass; stations it omits are omitted (no default is to be conjured up)
